@@ -235,11 +235,12 @@ theorem csi_chunks_norm (i : Csi.CIndex) (rid beg stop : Int) :
   IndexIO.csi_chunks_norm _ _ i rid beg stop
 
 /-- every CSI index built by `csi.Index.Add` from a coordinate-sorted input is representable (`CWF`), under
-hypotheses on the INPUT only: depth ≤ 9, minShift + 3·depth ≤ 62, fewer than 2^31 − 1 records, reference ids
+hypotheses on the INPUT only: depth ≤ 10 (the deepest geometry whose bin numbers fit `uint32`; needs fixes/C15-2
+for depth exactly 10), minShift + 3·depth ≤ 62, fewer than 2^31 − 1 records, reference ids
 below 2^31 − 1, chunk offsets below 2^63; any version 1/2 and any auxiliary bytes.  The bound "bins + pseudo-bin
 ≤ bin limit + 1" is a pigeonhole argument over the pairwise distinct bin numbers (`nodup_length_le`,
 `reg2bin_lt_binLimit`) and is tight: a reference may use every bin (fixes/C15-1) -/
-theorem csi_built_wf (ms d : Nat) (hd : d ≤ 9) (hgeom : ms + 3 * d ≤ 62)
+theorem csi_built_wf (ms d : Nat) (hd : d ≤ 10) (hgeom : ms + 3 * d ≤ 62)
     (version : Nat) (hver : version = 1 ∨ version = 2) (aux : List UInt8) (haux : aux.length < 2147483648)
     (recs : List Csi.CRec) (h : Csi.CSortedInput ms d recs) (hlen : recs.length < 2147483647)
     (hrid : ∀ r, r ∈ recs → r.rid < 2147483647)
@@ -249,7 +250,7 @@ theorem csi_built_wf (ms d : Nat) (hd : d ≤ 9) (hgeom : ms + 3 * d ≤ 62)
 
 /-- CSI end to end, hypotheses on the input only: the built index is written, read back as its canonical
 form and written again to identical bytes -/
-theorem csi_roundtrip_built (ms d : Nat) (hd : d ≤ 9) (hgeom : ms + 3 * d ≤ 62)
+theorem csi_roundtrip_built (ms d : Nat) (hd : d ≤ 10) (hgeom : ms + 3 * d ≤ 62)
     (version : Nat) (hver : version = 1 ∨ version = 2) (aux : List UInt8) (haux : aux.length < 2147483648)
     (recs : List Csi.CRec) (h : Csi.CSortedInput ms d recs) (hlen : recs.length < 2147483647)
     (hrid : ∀ r, r ∈ recs → r.rid < 2147483647)
@@ -268,7 +269,7 @@ theorem csi_previously_read (bs : Bytes) (i : Csi.CIndex) (h : readCsi bs = .ok 
 
 /-- C04's completeness for CSI carries over to the index read back from the written bytes (input-only
 hypotheses; `csiBuilt` is the version-2 index without auxiliary data) -/
-theorem csi_chunks_complete_after_roundtrip (ms d : Nat) (hd : d ≤ 9) (hgeom : ms + 3 * d ≤ 62)
+theorem csi_chunks_complete_after_roundtrip (ms d : Nat) (hd : d ≤ 10) (hgeom : ms + 3 * d ≤ 62)
     (recs : List Csi.CRec) (h : Csi.CSortedInput ms d recs) (hlen : recs.length < 2147483647)
     (hrid : ∀ r, r ∈ recs → r.rid < 2147483647)
     (hoff : ∀ r, r ∈ recs → r.chunk.e < 9223372036854775808)
